@@ -14,6 +14,7 @@ namespace sim {
 
 ElemLedger g_elems;
 ReallocExpect g_reallocExpect = {false, 0, {0, 0}, 0};
+unsigned g_zeroSign = 0;
 
 // ------------------------------------------------------------------------------------------------ names / registry
 static const char *kVecOpNames[] = {
@@ -303,9 +304,11 @@ struct Runner {
     return p;
   }
 
+  bool arith = false;
   Val fresh(unsigned a, unsigned i) {
     ++paygen;
     int pay = payMod ? (paygen % payMod) + 1 : paygen;
+    if (arith && (a + i + paygen) % 6 == 0) return Val{0, 0};  // arithmetic elements: zeros of both signs
     return Val{int((a + i * 7u) % plan.keyDom), pay};
   }
 
@@ -325,6 +328,20 @@ struct Runner {
     VecObs o = s.type->observe(s.obj);
     if (o.size > o.capacity) { viol(VK_CAPACITY, P(7), std::string(when) + ": size() > capacity()"); return false; }
     if (o.capacity > o.maxSize) { viol(VK_CAPACITY, P(7), std::string(when) + ": capacity() > max_size()"); return false; }
+    // the capacity word is the only record of the size a block was obtained with: it must describe the block data() designates
+    if (o.data && !o.inside && s.type->allocDomain) {
+      const SimHeap::Block *b = g_heap.find_live(o.data);
+      if (!b) {
+        viol(G.faultFired ? VK_FAULT : VK_ALLOC, P(6) | (G.faultFired ? P(9) : 0), std::string(when) + ": data() does not designate a live block of the allocator (buffer already returned, or never obtained)");
+        return false;
+      }
+      if (b->bytes != o.capacity * s.type->elemSize) {
+        char m[200];
+        snprintf(m, sizeof m, "%s: capacity() is %zu but the buffer was obtained / last reallocated for %zu elements", when, o.capacity, b->bytes / s.type->elemSize);
+        viol(G.faultFired ? VK_FAULT : VK_ALLOC, P(6) | (G.faultFired ? P(9) : 0), m);
+        return false;
+      }
+    }
     if (!s.type->snapshot(s.obj, got, err)) { viol(VK_ELEM, P(2) | G.baseProps, std::string(when) + ": " + err); return false; }
     if (got.size() != s.model.size()) {
       char m[128];
@@ -384,6 +401,7 @@ struct Runner {
     g_heap.reset();
     g_elems.reset();
     g_reallocExpect.known = false;
+    g_zeroSign = 0;
     G.baseProps = P(1);
     slots.resize(plan.types.size());
     for (size_t i = 0; i < slots.size(); ++i) {
@@ -393,7 +411,8 @@ struct Runner {
       s.obj = raw_alloc(*s.type);
       s.type->construct(s.obj);
       s.mustInline = s.type->flavour == FL_SMALL;
-      if (s.type->elemSize <= 4) payMod = 30000;
+      if (s.type->elemSize <= 4 || s.type->elemArith) payMod = 30000;
+      if (s.type->elemArith) arith = true;
     }
     {
       std::string hdr = "run config=" + fam.name + " pool=";
@@ -507,7 +526,7 @@ struct Runner {
       case V_INSERT_RANGE: case V_APPEND_RANGE: {
         size_t add = pick_count(0);
         // a range longer than the size_type itself can count (its length wraps when narrowed): must still be refused
-        if (wantOvershoot && argMax <= 255 && ((op.n >> 24) & 3) == 0) add = 256 + (op.n >> 26) % 8;
+        if (wantOvershoot && argMax <= 255 && ((op.n >> 24) & 3) == 0 && io.stream != SRC_INPUT) add = 256 + (op.n >> 26) % 8;
         if (!fit(add, 0)) return false;
         io.pos = op.kind == V_INSERT_RANGE ? pick_pos(sz) : sz; gen_vals(add);
         return true;
